@@ -222,9 +222,17 @@ func (o c11Op) run() c11Res {
 		// a long question (the number written three times over: 3..60 digits, beyond any machine word) and a long hex timestamp
 		long := "1" + dec + dec + dec
 		b2, e7 := otp.ParseDecimalChallengeRFC6287(long)
-		return c11Res{S: fmt.Sprintf("%x %v|%x %v|%x %v|%x|%x %v|%s|%x %v|%x %x %x %x %x %v|%x %v|%s %d %d", a, e1, b, e2, b2, e7, c, d, e3, e, f, e4,
+		res := c11Res{S: fmt.Sprintf("%x %v|%x %v|%x %v|%x|%x %v|%s|%x %v|%x %x %x %x %x %v|%x %v|%s %d %d", a, e1, b, e2, b2, e7, c, d, e3, e, f, e4,
 			in.Counter, in.Challenge, in.Password, in.SessionInfo, in.Timestamp, e5, k, e6,
 			otp.AlgorithmFromStr(otp.Algorithm(o.Algo).String()).String(), otp.DigitsFromStr(fmt.Sprint(o.Digits)).Int(), otp.Digits(o.Digits).Int())}
+		// the slices are the caller's now: it wipes them (a decoded key after use). Nothing another call computes may change —
+		// other operations of the history use the same secret text
+		for _, sl := range [][]byte{a, b, b2, c, d, f, in.Counter, in.Challenge, in.Password, in.SessionInfo, in.Timestamp, k} {
+			for i := range sl {
+				sl[i] = 0
+			}
+		}
+		return res
 	case "list":
 		l := otp.ListSuites()
 		sortStrings(l)
